@@ -372,6 +372,8 @@ func init() {
 	reg("C01_MultiTransferDeliver1", C01_MultiTransferDeliver1)
 	reg("C01_MultiTransferDeliver2", C01_MultiTransferDeliver2)
 	reg("C01_TransferSelf", C01_TransferSelf)
+	reg("C01_NFTTransferWideNonce", C01_NFTTransferWideNonce)
+	reg("C01_MultiTransferWideNonce", C01_MultiTransferWideNonce)
 	reg("C01_TransferRefund", C01_TransferRefund)
 	reg("C01_NFTTransferRefund", C01_NFTTransferRefund)
 	reg("C01_MultiTransferRefund", C01_MultiTransferRefund)
@@ -392,6 +394,22 @@ func C01_TransferSelf() {
 	}
 }
 func C01_NFTTransferSend() { sendCheck(scnNFTTransfer(sendOpt)) }
+
+// C01_NFTTransferWideNonce / C01_MultiTransferWideNonce: the send step with a nonce argument of 8
+// or 9 arbitrary bytes (values at and beyond the machine word, among them the multiples of 2^64
+// that truncate to 0).
+func C01_NFTTransferWideNonce() {
+	wideNonce = true
+	o := sendOpt
+	o.NoCall = true
+	sendCheck(scnNFTTransfer(o))
+}
+func C01_MultiTransferWideNonce() {
+	wideNonce = true
+	o := sendOpt
+	o.MultiK, o.NoCall = 1, true
+	sendCheck(scnMultiTransfer(o))
+}
 func C01_MultiTransferSend1() {
 	o := sendOpt
 	o.MultiK = 1
